@@ -249,6 +249,8 @@ class P(Prop):
         (M, "TV.C20.mapOnTrackT_ignores_state", "the result of mapOnTrack(track, track) depends on the positions of the two tracks only, not on their analytical features / time stamps"),
         (M, "TV.C20.mapOnTrackT_empty", "a track of queries without observation: AnalyticalFeatureError (createAnalyticalFeature on the empty output)"),
         (M, "TV.C20.mapChain_calls", "chained snapping mapOnTrack(mapOnTrack(q, ref0), ref1) ...: output k is mapOnTrack(output k-1, ref k) — its dist / edge are those of the projection of the previous output's positions, not the dist / edge that output carries"),
+        (M, "TV.C20.proj_polyline_skipped_run", "a RUN of consecutive skipped segments of non-zero length going forward from an end of a kept segment: d <= distance from the query to every point of the (t+1)-th segment of the run + (t+1) * 1e-16"),
+        (M, "TV.C20.proj_polyline_skipped_run_back", "the same for a run going backward to an end of a kept segment: every point of segment w + t of the run is covered up to (r - t) * 1e-16; with the forward form and proj_polyline_min_partial every point of a polyline that has a kept segment is covered"),
         (M, "TV.C20.vertical_zerodiv_iff", "vertical segment: ZeroDivisionError exactly when the query has the segment's abscissa and a = y2 - y1 lies between y1 and y2 (the harness predicate zerodiv_vertical); an end point otherwise"),
         (M, "TV.C20.proj_polyline_vertical_case", "any polyline, kept vertical segments included: segment i is kept and EITHER exactly vertical, the returned point being one of its END points, OR non-vertical with the answer right once the kept vertical segments are left out (on segment i, d = |q - p|, d <= every point of every kept non-vertical segment): the model's side of the class vertical-segment"),
         (M, "TV.C20.mapOnTrackT_nearest_partial", "the property at full strength through the track form, tracks with any state: reference without kept vertical segment, at least one query -> returns; for every query the output's point lies on segment edge[j], dist[j] = distance to it, minimal over every point of every segment"),
@@ -258,8 +260,8 @@ class P(Prop):
                "for every NON-vertical orientation; for vertical segments the statement is false of the code (D16, pinned by test_geometry.py::testProjSegment; "
                "proj_segment_min_fails_on_vertical, vertical_as_coded, vertical_zerodiv_iff): there only the end points are covered; proj_polyline_vertical_case states what "
                "an answer on a polyline WITH kept vertical segments still guarantees (reported segment vertical -> one of its end points; else right w.r.t. the non-vertical ones). A skipped segment of non-zero length < 1e-16 is "
-               "covered up to 1e-16 when it touches a kept segment (proj_polyline_skipped_partial); a run of several consecutive skipped segments is not "
-               "stated. mapOnTrackT_nearest_partial carries the same statement through the track form (track objects with features / time stamps, "
+               "covered up to 1e-16 when it touches a kept segment (proj_polyline_skipped_partial), a run of k consecutive skipped segments from a kept end up to "
+               "k * 1e-16 (proj_polyline_skipped_run, proj_polyline_skipped_run_back: every maximal run touches a kept segment unless all segments are skipped). mapOnTrackT_nearest_partial carries the same statement through the track form (track objects with features / time stamps, "
                "chained calls by mapChain_calls). Exact arithmetic: IEEE rounding (D17, horizontal segments) is outside the theorems and sampled by the transfer check; "
                "the numpy form on a vertical segment (inf / nan instead of ZeroDivisionError) is IEEE-only and checked by correspondence"]
     open_statements = ["proj_segment_min (all orientations, vertical included): FALSE of the current code (D16), kept as a comment in Props/C20.lean with its refutation"]
